@@ -113,7 +113,7 @@ func (c *MJBodyComponent) Render(w io.StringWriter) error {
 		}
 		switch next := c.Children[i+1].(type) {
 		case *MJSectionComponent:
-			if next.GetAttributeWithDefault(next, "full-width") == "" {
+			if next.fullWidthFlag() == "" {
 				return 1
 			}
 		case *MJWrapperComponent:
